@@ -311,6 +311,8 @@ func (c *Ctx) c04AllSets() {
 	}
 	r.Rule("R10", "the line the three sets choose their handlers by is never reused while a dispatch may still read it: every value sent on the inbound queue is deep-fresh (= C15.R3); the background set reads Line.Cmd on a detached goroutine after the event loop has moved on")
 	c.freshParsedLineRule("R10")
+	r.Rule("R12", "the lock that guards a handler set is the set's own, never a copy: no function of package client receives or copies by value a struct that contains a sync.Mutex or sync.RWMutex (shared with C14.R4)")
+	c.noLockCopiesRule("R12", c.clientFuncs())
 	r.Rule("R11", "registering or removing a handler takes no lock but the handler set's own: in everything Handle, HandleBG, HandleFunc and a Remover's Remove reach by plain calls, the only lock acquired is the set's (the teardown holds the connection mutex while it waits for a running handler, so a registration that touched it from inside a handler would deadlock the disconnect)")
 	c.registrationLocksRule("R11")
 	cd := a.ConnDispatch
